@@ -168,13 +168,35 @@ def hasCrlfInIndex (t : StatsTable) (buf : Bytes) : Bool :=
     !s.isBinary && s.crlf > 0
   else false
 
-/-- the round-trip simulation: which message is due, if any -/
-def roundTripMsg (stats : Stats) (convert : Bool) (d : Digest) (c : Config) : Option RtMsg :=
+/-- `new_stats` after "simulate to-git conversion/git-add" and "simulate worktree checkout" -/
+def simulateRoundTrip (stats : Stats) (convert : Bool) (d : Digest) (c : Config) : Stats :=
   let new1 := if convert then { stats with loneLf := stats.loneLf + stats.crlf, crlf := 0 } else stats
-  let new2 := if new1.willConvertLfToCrlf d c then { new1 with crlf := new1.crlf + new1.loneLf, loneLf := 0 } else new1
+  if new1.willConvertLfToCrlf d c then { new1 with crlf := new1.crlf + new1.loneLf, loneLf := 0 } else new1
+
+/-- the round-trip check: which message is due, if any -/
+def roundTripMsg (stats : Stats) (convert : Bool) (d : Digest) (c : Config) : Option RtMsg :=
+  let new2 := simulateRoundTrip stats convert d c
   if stats.crlf > 0 && new2.crlf == 0 then some .crlfToLf
   else if stats.loneLf > 0 && new2.loneLf == 0 then some .lfToCrlf
   else none
+
+/-- `convert_crlf_to_lf` after the auto-text adjustment: an index blob with CRLF keeps the CRLF -/
+def convertCrlfToLf (t : StatsTable) (stats : Stats) (d : Digest) (index : Option Bytes) : Bool :=
+  if d.isAutoText then
+    match index with
+    | some buf => if hasCrlfInIndex t buf then false else stats.crlf > 0
+    | none => stats.crlf > 0
+  else stats.crlf > 0
+
+/-- the end of `eol::convert_to_git`: fail or warn, then strip the CRs (or not) -/
+def eolToGitTail (src : Bytes) (stats : Stats) (convert : Bool) (msg : Option RtMsg)
+    (rt : Option RoundTrip) : Except RtMsg EolToGit :=
+  match rt, msg with
+  | some .fail, some m => .error m
+  | _, _ =>
+    if !convert then .ok { out := none, warned := msg }
+    else if stats.loneCr == 0 then .ok { out := some (stripAllCr src), warned := msg }
+    else .ok { out := some (stripCrBeforeLf src), warned := msg }
 
 /-- `eol::convert_to_git`; `index` is what `index_object` delivers (`Ok(None)` = `none`). -/
 def eolToGitWith (t : StatsTable) (src : Bytes) (d : Digest) (index : Option Bytes)
@@ -182,24 +204,13 @@ def eolToGitWith (t : StatsTable) (src : Bytes) (d : Digest) (index : Option Byt
   if d == .binary || src.isEmpty then .ok { out := none }
   else
     let stats := Stats.fromBytesWith t src
-    let convert0 : Bool := stats.crlf > 0
     if d.isAutoText && stats.isBinary then .ok { out := none }
     else
-      let convert : Bool :=
-        if d.isAutoText then
-          match index with
-          | some buf => if hasCrlfInIndex t buf then false else convert0
-          | none => convert0
-        else convert0
+      let convert := convertCrlfToLf t stats d index
       let msg : Option RtMsg := match rt with
         | some _ => roundTripMsg stats convert d c
         | none => none
-      match rt, msg with
-      | some .fail, some m => .error m
-      | _, _ =>
-        if !convert then .ok { out := none, warned := msg }
-        else if stats.loneCr == 0 then .ok { out := some (stripAllCr src), warned := msg }
-        else .ok { out := some (stripCrBeforeLf src), warned := msg }
+      eolToGitTail src stats convert msg rt
 
 /-- the `while let Some(pos) = src[ofs..].find_byteset(b"\r\n")` loop of `eol::convert_to_worktree` -/
 def eolToWorktreeLoop : Nat → Bytes → Bytes → Bytes
@@ -306,14 +317,11 @@ def AutoCrlf.toDigest : AutoCrlf → Digest
   | .enabled => .textAutoCrlf
   | .disabled => .binary
 
-/-- `Configuration::at_path`: (`digest`, `apply_ident_filter`) -/
-def atPath (a : Attrs) (c : Config) : Digest × Bool :=
-  let d0 := match extractCrlf a.text with
-    | none => extractCrlf a.crlf
-    | some d => some d
-  let d1 :=
+/-- the second half of `Configuration::at_path`: the `eol` attribute refines what `text`/`crlf`
+said (`d0`), then the configuration fills in what the attributes left open -/
+def digestOf (d0 : Option Digest) (eol : Option Mode) (c : Config) : Digest :=
+  let d1 : Option Digest :=
     if d0 != some .binary then
-      let eol := extractEol a.eol
       match d0, eol with
       | some .textAuto, some .lf => some .textAutoInput
       | some .textAuto, some .crlf => some .textAutoCrlf
@@ -321,11 +329,16 @@ def atPath (a : Attrs) (c : Config) : Digest × Bool :=
       | _, some .lf => some .textInput
       | _, none => d0
     else d0
-  let d2 := match d1 with
-    | none => c.autoCrlf.toDigest
-    | some .text => c.toEol.toDigest
-    | some d => d
-  (d2, a.ident == .set)
+  match d1 with
+  | none => c.autoCrlf.toDigest
+  | some .text => c.toEol.toDigest
+  | some d => d
+
+/-- `Configuration::at_path`: (`digest`, `apply_ident_filter`) -/
+def atPath (a : Attrs) (c : Config) : Digest × Bool :=
+  -- `let mut digest = extract_crlf(&attrs[4]); if digest.is_none() { digest = extract_crlf(&attrs[0]); }`
+  let d0 := (extractCrlf a.text).or (extractCrlf a.crlf)
+  (digestOf d0 (extractEol a.eol) c, a.ident == .set)
 
 /-- `pipeline::CrlfRoundTripCheck` -/
 inductive CrlfRoundTripCheck | fail | warn | skip
@@ -347,15 +360,18 @@ def Outcome.bytes (o : Outcome) (src : Bytes) : Bytes :=
   | .unchanged => src
   | .buffer b => b
 
+/-- `would_convert_eol`: `eol::convert_to_git(b"\r\n", digest, …, round_trip_check: None)` —
+"this is just an approximation, but it's as good as it gets without reading the actual input" -/
+def wouldConvertEol (t : StatsTable) (digest : Digest) (c : Config) : Bool :=
+  match eolToGitWith t [13, 10] digest none none c with
+  | .ok r => r.out.isSome
+  | .error _ => false
+
 /-- `Pipeline::convert_to_git` without driver and encoding -/
 def pipelineToGitWith (t : StatsTable) (src : Bytes) (a : Attrs) (index : Option Bytes)
     (check : CrlfRoundTripCheck) (c : Config) : Except RtMsg (Outcome × Option RtMsg) :=
   let (digest, applyIdent) := atPath a c
-  -- "this is just an approximation, but it's as good as it gets without reading the actual input"
-  let wouldConvertEol := match eolToGitWith t [13, 10] digest none none c with
-    | .ok r => r.out.isSome
-    | .error _ => false
-  if !(applyIdent || wouldConvertEol) then
+  if !(applyIdent || wouldConvertEol t digest c) then
     -- nothing is read; the later stages see an empty/stale buffer and `digest == Binary`
     .ok (.unchanged, none)
   else
